@@ -1,7 +1,8 @@
 """C11: ECU rename/delete/update keep every sender and receiver reference consistent.
 Tie: CanMatrix.rename_ecu / del_ecu / update_ecu_list / delete_obsolete_ecus / add_signal_receiver / del_signal_receiver
 (and through them add_ecu, glob_ecus, Frame.update_receiver, add/del_transmitter, add/del_receiver) vs model/EcuOps.v
-(cmd 1101, the full matrix after EVERY operation of a sequence, order of every list included); fnmatch.fnmatchcase vs
+(cmd 1101: for EVERY operation of a sequence one model step from the implementation's state before it, compared with the
+implementation's state after it modulo what the property leaves open: position inside a reference list, order of appended ECUs); fnmatch.fnmatchcase vs
 model/Glob.v (cmd 1102; with character classes [seq] / [!seq] / ranges: glob_match_cls, cmd 1104, which is also what the
 sequences of cmd 1101 use); str.strip vs the model's strip (cmd 1103).
 Patterns are generated with every subset of fnmatch's metacharacter kinds (`*`, `?`, `[...]`), alone and combined,
@@ -19,7 +20,7 @@ import core
 LEVEL_NOTE = ("theorems are about model/EcuOps.v + model/Glob.v; 'reference' = frame senders, receivers of the frames' signals, frame "
               "receivers (the kinds the property enumerates): rename/del/update leave CanMatrix.signals (free signals) untouched, "
               "delete_obsolete_ecus counts their receivers as references; envelope = duplicate-free reference lists, names without "
-              "surrounding white space / glob metacharacters, distinct ECU names (outside it the model is tied but no property is claimed; "
+              "surrounding white space / glob metacharacters, distinct ECU names (outside it nothing is judged or tied; "
               "the Coq witnesses *_refuted show what happens there); ECU NAMES containing '[' are not modelled (patterns are)")
 
 # flip to True to also evaluate the property on the streams outside the envelope (duplicate entries in a reference list etc.);
@@ -259,6 +260,41 @@ def enc_state(st):
     return g
 
 
+def unlp(g):
+    out, i = [], 0
+    while i < len(g):
+        n = g[i]
+        out.append("".join(chr(c) for c in g[i + 1:i + 1 + n]))
+        i += 1 + n
+    return tuple(out)
+
+
+def dec_state(groups):
+    """inverse of enc_state (model output -> state)"""
+    ecus, frames, free, cur, in_free = [], [], [], None, False
+    name = lambda g: "".join(chr(c) for c in g)
+    for g in groups:
+        t = g[0]
+        if t == 1:
+            ecus.append((name(g[2:]), g[1]))
+        elif t == 2:
+            cur = [name(g[2:]), g[1], (), (), []]
+            frames.append(cur)
+        elif t == 3:
+            cur[2] = unlp(g[1:])
+        elif t == 4:
+            cur[3] = unlp(g[1:])
+        elif t == 5:
+            (free if in_free else cur[4]).append([name(g[2:]), g[1], ()])
+        elif t == 6:
+            (free if in_free else cur[4])[-1][2] = unlp(g[1:])
+        elif t == 7:
+            in_free = True
+    return {"ecus": tuple(ecus),
+            "frames": tuple((f[0], f[1], f[2], f[3], tuple(tuple(x) for x in f[4])) for f in frames),
+            "free": tuple(tuple(x) for x in free)}
+
+
 def enc_op(op, pre):
     k = op[0]
     if k == "rename_name":
@@ -337,7 +373,7 @@ def in_envelope(st):
             if len(set(s[2])) != len(s[2]):
                 return "dup-signal-receiver"
             allr += s[2]
-        if list(f[3]) != nub(allr):
+        if set(f[3]) != set(allr) or len(set(f[3])) != len(f[3]):
             return "stale-frame-receivers"
     names = [n for n, _ in st["ecus"]]
     if len(set(names)) != len(names):
@@ -362,7 +398,7 @@ def shape_same(pre, post):
         for s, t in zip(f[4], g[4]):
             if (s[0], s[1]) != (t[0], t[1]):
                 return "signal %s.%s: name or a non-reference field changed" % (f[0], s[0])
-    if pre["free"] != post["free"]:
+    if canon(pre)["free"] != canon(post)["free"]:
         return "free signals changed"
     if not post["db_rest_ok"]:
         return "a matrix field other than ecus/frames/signals changed"
@@ -376,6 +412,27 @@ def map_refs(st, g):
 
 def sorted_refs(frames):
     return tuple((f[0], f[1], tuple(sorted(f[2])), tuple(sorted(f[3])), tuple((s[0], s[1], tuple(sorted(s[2]))) for s in f[4])) for f in frames)
+
+
+def outside_quantifier(op, pre):
+    """operations the property does not quantify over: renames whose new name is already in use (as an ECU, in a reference,
+    or - the ECU's own name included - anywhere else)"""
+    if op[0] in ("rename_name", "rename_inst"):
+        if op[2] in [n for n, _ in pre["ecus"]] or op[2] in refs3(pre) or op[2] in free_refs(pre):
+            return "rename-to-a-name-in-use"
+    return None
+
+
+def canon(st, n_listed_before=None):
+    """What the property constrains of a state.  It speaks of references as membership ('every reference', 'the union',
+    'exists exactly once', 'exactly the unreferenced ones') and fixes no position inside Frame.transmitters, Frame.receivers,
+    Signal.receivers, nor the order in which update_ecu_list appends the missing ECUs: reference lists are compared as
+    multisets, the ECU list as the ECUs listed before (in their order) followed by the multiset of the appended ones."""
+    ecus = tuple(st["ecus"])
+    if n_listed_before is not None:
+        ecus = ecus[:n_listed_before] + tuple(sorted(ecus[n_listed_before:]))
+    return {"ecus": ecus, "frames": sorted_refs(st["frames"]),
+            "free": tuple((s[0], s[1], tuple(sorted(s[2]))) for s in st["free"])}
 
 
 def oracle(op, pre, post):
@@ -400,11 +457,11 @@ def oracle(op, pre, post):
         else:
             idx = op[1]
         if idx is None:
-            if (post["ecus"], post["frames"]) != (pre["ecus"], pre["frames"]):
+            if (post["ecus"], sorted_refs(post["frames"])) != (pre["ecus"], sorted_refs(pre["frames"])):
                 bad.append(("rename-unlisted-changed", "renaming a name that is not a listed ECU changed the matrix", None, None))
             return bad
         old = listed[idx]
-        if new in listed or new in refs3(pre) or new in free_refs(pre):
+        if outside_quantifier(op, pre):
             return bad            # new name already in use: outside the quantifier
         exp_ecus = tuple((new, p) if i == idx else (n, p) for i, (n, p) in enumerate(pre["ecus"]))
         if post["ecus"] != exp_ecus:
@@ -422,11 +479,11 @@ def oracle(op, pre, post):
         gone = set(listed[i] for i in gone_idx)
         cls = " (pattern with a character class: %r)" % op[1] if k == "del_glob" and "[" in op[1] else ""
         exp_ecus = tuple(e for i, e in enumerate(pre["ecus"]) if i not in gone_idx)
-        if post["ecus"] != exp_ecus:
+        if tuple(sorted(post["ecus"])) != tuple(sorted(exp_ecus)):
             bad.append(("del-class-ecu-list" if cls else "del-ecu-list",
                         "ECU list after del_ecu is not the old one without the deleted ECU(s)" + cls, exp_ecus, post["ecus"]))
         exp = map_refs(pre, lambda l, kind: tuple(x for x in l if x not in gone))
-        if post["frames"] != exp:
+        if sorted_refs(post["frames"]) != sorted_refs(exp):
             bad.append(("del-class-refs" if cls else "del-refs",
                         "references after del_ecu are not the old ones without the deleted name(s)" + cls, exp, post["frames"]))
     elif k == "update":
@@ -440,14 +497,14 @@ def oracle(op, pre, post):
         if wrong or extra:
             bad.append(("update-exactly-once", "after update_ecu_list a referenced ECU is not listed exactly once (or something unreferenced was added)",
                         sorted(refd), names))
-        if post["frames"] != pre["frames"]:
+        if sorted_refs(post["frames"]) != sorted_refs(pre["frames"]):
             bad.append(("update-changed-frames", "update_ecu_list changed a frame", pre["frames"], post["frames"]))
     elif k == "obsolete":
         used = set(refs3(pre)) | set(free_refs(pre))
         exp_ecus = tuple(e for e in pre["ecus"] if e[0] in used)
-        if post["ecus"] != exp_ecus:
+        if tuple(sorted(post["ecus"])) != tuple(sorted(exp_ecus)):
             bad.append(("obsolete-ecu-list", "delete_obsolete_ecus did not remove exactly the unreferenced ECUs", exp_ecus, post["ecus"]))
-        if post["frames"] != pre["frames"]:
+        if sorted_refs(post["frames"]) != sorted_refs(pre["frames"]):
             bad.append(("obsolete-changed-frames", "delete_obsolete_ecus changed a frame", pre["frames"], post["frames"]))
     elif k in ("add_sr", "del_sr"):
         gf, gs, n = op[1], op[2], op[3]
@@ -485,8 +542,9 @@ def run_sequence(C, desc, ops, variant=None, vseed=0, check=True):
         env = in_envelope(pre)
         try:
             apply_op(C, db, op)
-        except Exception as e:                      # no operation of the property may raise
-            fails.append((i, "raised", "%s raised %s: %s" % (op[0], type(e).__name__, e), None, None))
+        except Exception as e:                      # no operation of the property may raise (inside its quantifier)
+            if (env or outside_quantifier(op, pre)) is None or CLAIM_OUTSIDE_ENVELOPE:
+                fails.append((i, "raised", "%s raised %s: %s" % (op[0], type(e).__name__, e), None, None))
             states.append(None)
             break
         post = state(db, base)
@@ -494,18 +552,16 @@ def run_sequence(C, desc, ops, variant=None, vseed=0, check=True):
         if not check:
             pre = post
             continue
+        env = env or outside_quantifier(op, pre)
         if env is None:
             for key, what, exp, obs in oracle(op, pre, post):
                 fails.append((i, key, what, exp, obs))
         else:
+            # outside the property's quantifier / envelope: neither judged nor tied
             notes.append(env)
             if CLAIM_OUTSIDE_ENVELOPE:
                 for key, what, exp, obs in oracle(op, pre, post):
                     fails.append((i, "outside-envelope:" + env, what, exp, obs))
-            else:
-                sh = shape_same(pre, post)
-                if sh:
-                    fails.append((i, "other-fields-changed", sh, None, None))
         pre = post
     return states, fails, notes
 
@@ -655,16 +711,16 @@ def gen_op(rng, st, fresh):
 
     def new_name():
         x = rng.random()
-        if x < 0.80:
+        if x < 0.82:
             fresh[0] += 1
             return "N%d" % fresh[0]
-        if x < 0.93:
+        if x < 0.97:
             cand = [n for n in ECU_POOL if n not in inuse]
             if cand:
                 return rng.choice(cand)
             fresh[0] += 1
             return "N%d" % fresh[0]
-        return rng.choice(sorted(inuse)) if inuse else "N0"      # already in use: outside the quantifier, tie only
+        return rng.choice(sorted(inuse)) if inuse else "N0"      # already in use: outside the quantifier (neither judged nor tied)
 
     def some_ecu():
         x = rng.random()
@@ -777,9 +833,9 @@ def run(chk):
                 "referenced by a free signal only), 1..5 frames x 0..4 signals with 0..4 receivers, 0..3 senders, an ECU that sends one frame and "
                 "receives in another; sequences of 1..12 operations chosen against the current state (rename by name / by object, del by object / "
                 "foreign object / glob pattern with * and ?, update_ecu_list, delete_obsolete_ecus, add/del_signal_receiver with globs); the whole "
-                "state is compared after every operation; 40% of the sequences (25% thorough) are repeated on three other constructions of the same "
-                "definition (shared list objects, copy.copy clones, deepcopy) and compared with the plain run. Separate streams outside the envelope (duplicate entries, stale frame receivers, white "
-                "space or * ? in names, duplicate ECUs) are tied to the model only. non-trivial = some operation of the sequence changed the ECU list "
+                "state is compared after every operation (reference lists as multisets, appended ECUs in any order - the property fixes no position); 40% of the sequences (25% thorough) are repeated on three other constructions of the same "
+                "definition (shared list objects, copy.copy clones, deepcopy) and compared with the plain run. Steps outside the quantifier (a rename to a name in use, states with duplicate "
+                "ECU names) are neither judged nor tied; the four witnesses of the *_refuted theorems are replayed and recorded only. non-trivial = some operation of the sequence changed the ECU list "
                 "or a reference list; distinct by (matrix, operations). Glob: all patterns of length <= 4 over {a,b,*,?} x all names of length <= 4 "
                 "over {a,b}, plus random pairs over an alphabet with regex metacharacters; classes: all patterns of length <= 4 over {a,b,[,],!,-} x "
                 "names of length <= 2 over {a,b,-,!,]} plus random ones with ranges; operation patterns use every subset of {*, ?, [..]}")
@@ -821,7 +877,9 @@ def run(chk):
     # ---- generated sequences ----
     n_env = 1500 if not thorough else 60000
     n_exo = 60 if not thorough else 2000         # per exotic kind
-    plan = [(None, n_env)] + [(e, n_exo) for e in ("dup-ref", "stale", "space", "meta", "dup-ecu")]
+    # matrices outside the envelope (duplicate entries, stale receiver lists, blanks or * ? in names, duplicate ECUs) are neither
+    # judged nor tied: they are generated only when the property is deliberately evaluated out there
+    plan = [(None, n_env)] + ([(e, n_exo) for e in ("dup-ref", "stale", "space", "meta", "dup-ecu")] if CLAIM_OUTSIDE_ENVELOPE else [])
     for exotic, n in plan:
         for _ in range(n):
             desc = gen_desc(rng, exotic)
@@ -927,18 +985,19 @@ def run(chk):
         # model case: the matrix, the ops as the implementation saw them, the states after each op
         if any(s is None for s in states):
             continue
-        groups = enc_state(desc_state(desc))
-        exp = []
-        for s in states:
+        # one model case per operation, started from the implementation's state before it: model step(pre) vs the implementation's
+        # state after it, both in the canonical form of `canon` (what the property constrains)
+        for si, s in enumerate(states):
             if s[0] == "skip":
                 continue
             op, pre, post = s
-            groups.append(enc_op(op, pre))
-            exp.append([99])
-            exp += enc_state(post)
-        if not exp:
-            exp = []
-        add(1101, groups, exp, dict(stream=tag, matrix=desc, operations=[list(o) for o in ops]))
+            why = in_envelope(pre) or outside_quantifier(op, pre)
+            if why:
+                chk.count("step neither judged nor tied: " + why)
+                continue
+            chk.count("steps tied to the model")
+            add(1101, enc_state(pre) + [enc_op(op, pre)], canon(post, len(pre["ecus"])),
+                dict(stream=tag, matrix=desc, operations=[list(o) for o in ops], step=si, n_listed=len(pre["ecus"])))
 
     # the witnesses of props/C11.v behave on the implementation as the model says (recorded, not claimed as violations)
     chk.extra["outside_envelope_witnesses_on_implementation"] = {
@@ -1015,21 +1074,30 @@ def run(chk):
     bad = 0
     for inf, exp, o in zip(info, expect, out):
         got = core.parse_out(o) if o.strip() else []
-        if (got if got != [[]] else []) != (exp if exp != [[]] else []):
+        if "matrix" in inf:
+            got = canon(dec_state(got[1:]), inf["n_listed"]) if got[:1] == [[99]] else got
+            if got != exp:
+                bad += 1
+                chk.tie_break("ecuops", inf, got, exp)
+        elif (got if got != [[]] else []) != (exp if exp != [[]] else []):
             bad += 1
-            chk.tie_break("ecuops" if "matrix" in inf else "glob", inf, got[:40], exp[:40])
+            chk.tie_break("glob", inf, got[:40], exp[:40])
     if len(out) != len(lines):
         chk.tie_break("ecuops", "driver returned %d lines for %d cases" % (len(out), len(lines)), None, None)
-    chk.ties["correspondence"] = {"suite": "ecuops (cmd 1101: state after every op), glob (1102), glob with classes (1104), strip (1103)", "cases": len(lines),
-                                  "sequences": sum(1 for i in info if "matrix" in i), "disagreements": bad}
+    chk.ties["correspondence"] = {"suite": "ecuops (cmd 1101: one step from the implementation's state before each op), glob (1102), glob with classes (1104), strip (1103)", "cases": len(lines),
+                                  "operation steps": sum(1 for i in info if "matrix" in i), "disagreements": bad,
+                                  "compared": "modulo position inside reference lists and order of appended ECUs (canon)"}
     # in-Coq shard: short sequences + glob pairs
+    # (the shard cross-checks the extracted driver: for the matrix cases its expected answer is the driver's own answer, which the
+    #  comparison above related to the implementation modulo `canon`)
     seq_idx = [i for i, inf in enumerate(info) if "matrix" in inf and len(lines[i]) < 1500]
     glob_idx = [i for i, inf in enumerate(info) if "glob" in inf or "glob_cls" in inf]
-    idx = list(range(len(fixed))) + rng.sample(seq_idx, min(120, len(seq_idx))) + rng.sample(glob_idx, min(150, len(glob_idx)))
+    idx = rng.sample(seq_idx, min(140, len(seq_idx))) + rng.sample(glob_idx, min(150, len(glob_idx)))
     shard = []
     for i in sorted(set(idx)):
         c, _, groups = lines[i].partition(" ")
-        shard.append((int(c, 16), [[int(t, 16) for t in g.split()] for g in groups.split("|")], expect[i]))
+        e = expect[i] if "matrix" not in info[i] else (core.parse_out(out[i]) if out[i].strip() else [])
+        shard.append((int(c, 16), [[int(t, 16) for t in g.split()] for g in groups.split("|")], e))
     mm, log = core.coq_shard(shard, "c11")
     chk.ties["vm_compute_shard"] = {"cases": len(shard), "mismatches": mm}
     if mm is None:
